@@ -1,1 +1,4 @@
 pub mod poolsim;
+pub mod addrsort;
+pub mod eyeballs;
+pub mod sni;
